@@ -190,6 +190,60 @@ example : (calculateOrder .asIs (.velocity 1 1) true none exSys.pos exSys.vel ex
     (calculateOrder .asIs (.velocity 1 1) false none exSys.pos exSys.vel exSys.box).1 = .ok [1] := by
   constructor <;> decide +kernel
 
+/-! ### `Path.reverse` -/
+
+theorem negHead_negHead (l : List ℚ) : negHead (negHead l) = l := by
+  cases l with
+  | nil => rfl
+  | cons x t => simp [negHead]
+
+/-- **`Path.reverse`, repaired variant**: recomputing the order of the reversed frame on its physical
+    velocities (`vel · (−1)^vel_rev` with the toggled flag) negates the order of every
+    velocity-type parameter and leaves position-type ones alone. -/
+theorem path_reverse_flips_velocity_order (var : Variant) (op : OP) (f : Frame) :
+    (reverseRecompute .repaired var op f).2 =
+      if op.velocityDependent then (frameOrder var op f).map negHead else frameOrder var op f := by
+  have h := velocity_reversal_sign var op f.sys
+  cases hv : f.velRev with
+  | false =>
+    simp only [reverseRecompute, frameOrder, Frame.physical, hv, Bool.not_false, if_true]
+    simpa using h
+  | true =>
+    simp only [reverseRecompute, frameOrder, Frame.physical, hv, Bool.not_true, Bool.false_eq_true, if_false,
+      if_true]
+    rw [h]
+    cases op.velocityDependent with
+    | false => simp
+    | true =>
+      simp only [if_true]
+      cases value var op f.sys with
+      | error e => rfl
+      | ok l => simp [Except.map, negHead_negHead]
+
+/-- the frame of the witness: one atom with velocity (3,0,0), not reversed -/
+def revFrame : Frame := { sys := ⟨[⟨0, 0, 0⟩], [⟨3, 0, 0⟩], none⟩, velRev := false }
+
+example : OP.velocityDependent (.velocity 0 0) = true ∧ frameOrder .asIs (.velocity 0 0) revFrame = .ok [3] ∧
+    (reverseRecompute .repaired .asIs (.velocity 0 0) revFrame).2 = .ok [-3] := by
+  refine ⟨?_, ?_, ?_⟩ <;> decide +kernel
+
+/-- **The code as it is does not flip the sign**: `Path.reverse` toggles `vel_rev` and calls
+    `order_function.calculate(frame)`, which reads the stored velocities and ignores the flag.
+    Witness: `Velocity(0,'x')` on a frame with velocity (3,0,0): order 3 before, 3 (not −3) after. -/
+theorem path_reverse_velocity_order_counterexample :
+    ¬ (∀ (var : Variant) (op : OP) (f : Frame), op.velocityDependent = true →
+        (reverseRecompute .asIs var op f).2 = (frameOrder var op f).map negHead) := by
+  intro h
+  have := h .asIs (.velocity 0 0) revFrame (by decide)
+  revert this
+  decide +kernel
+
+/-- in general: as the code is, the recomputed order of a frame that was not reversed before is
+    simply the old order -/
+theorem path_reverse_asIs_order_unchanged (var : Variant) (op : OP) (f : Frame) (hf : f.velRev = false) :
+    (reverseRecompute .asIs var op f).2 = frameOrder var op f := by
+  simp [reverseRecompute, frameOrder, Frame.physical, hf]
+
 /-! ### 3- and 9-component boxes -/
 
 /-- **3- vs 9-component boxes, repaired variant** (`Distancevel` slicing `box[:3]` like the other
